@@ -584,12 +584,6 @@ ARR_UN = {"sqrt": "sqrt", "sin": "sin", "cos": "cos", "tan": "tan", "asin": "asi
 # the two kernels that are loops with local control flow are accepted only in exactly this shape (token sequence);
 # their meaning over the reals is the model's Rmod / Rnth_root (Eval/DerivSem.v)
 FROZEN = {
-    "OP_MOD": ("Rmod a b",
-               "for ( auto i = 0 ; i < a . size ( ) ; ++ i ) { float d = fabs ( a ( i ) / b ( i ) ) ; "
-               "if ( ( a ( i ) < 0 ) ^ ( b ( i ) < 0 ) ) { d = - ceil ( d ) ; } else { d = floor ( d ) ; } "
-               "out ( i ) = a ( i ) - b ( i ) * d ; "
-               "if ( ( b ( i ) > 0 && out ( i ) > b ( i ) ) || ( b ( i ) < 0 && out ( i ) < b ( i ) ) ) { out ( i ) = b ( i ) ; } "
-               "if ( ( b ( i ) > 0.0f && out ( i ) < 0.0f ) || ( b ( i ) < 0.0f && out ( i ) > 0.0f ) ) { out ( i ) = 0.0f ; } } break ;"),
     "OP_NTH_ROOT": ("Rnth_root a b",
                     "for ( auto i = 0 ; i < a . size ( ) ; ++ i ) { if ( a ( i ) < 0 ) out ( i ) = Interval::nth_root ( "
                     "Interval ( a ( i ) , a ( i ) ) , Interval ( b ( i ) , b ( i ) ) ) . lower ( ) ; "
@@ -597,12 +591,21 @@ FROZEN = {
 }
 
 
+ARR_ENV = {}       # local variables and the current value of out (per case, see arr_seq)
+
+
 def arr_expr(e):
     k = e[0]
     if k == "id" and e[1] in ("a", "b"):
         return e[1]
+    if k == "id" and e[1] in ARR_ENV:
+        return ARR_ENV[e[1]]
     if k == "call" and e[1][0] == "id" and e[1][1] in ("a", "b") and len(e[2]) == 1:
         return e[1][1]                                  # a(i)
+    if k == "call" and e[1] == ("id", "out") and len(e[2]) == 1 and "out" in ARR_ENV:
+        return ARR_ENV["out"]                           # out(i) read back
+    if k == "call" and e[1][0] == "id" and e[1][1] in ("fabs", "floor", "ceil") and len(e[2]) == 1:
+        return "(" + {"fabs": "Rabs", "floor": "Rfloor", "ceil": "Rceil"}[e[1][1]] + " " + arr_expr(e[2][0]) + ")"
     if k == "num":
         v = float(e[1])
         if v != int(v):
@@ -639,6 +642,74 @@ def arr_cond(e):
         l, r = arr_expr(e[2]), arr_expr(e[3])
         return f"Rlt_dec {l} {r}" if e[1] == "<" else f"Rlt_dec {r} {l}"
     raise ValueError("condition " + str(e)[:80])
+
+
+def arr_bool(e):
+    """a condition as a Coq bool"""
+    if e[0] == "cmp":
+        return f"(if {arr_cond(e)} then true else false)"
+    if e[0] in ("and", "or", "xor"):
+        f = {"and": "andb", "or": "orb", "xor": "xorb"}[e[0]]
+        return f"({f} {arr_bool(e[1])} {arr_bool(e[2])})"
+    raise ValueError("condition " + str(e)[:80])
+
+
+def arr_seq(stmts):
+    """straight-line code with local floats, re-assignments and one-armed ifs (the OP_MOD loop): symbolic execution in
+    SSA form -- every assignment binds a fresh name with `let`, variables assigned under an `if` are merged at the join"""
+    binds = []
+
+    def fresh(var, term):
+        name = f"{var}{len(binds)}"
+        binds.append((name, term))
+        ARR_ENV[var] = name
+
+    def target(t):
+        if t[0] == "id":
+            return t[1]
+        if t[0] == "call" and t[1] == ("id", "out"):
+            return "out"
+        raise ValueError("assignment to " + str(t)[:60])
+
+    def run(sts):
+        for st in sts:
+            k = st[0]
+            if k in ("break", "assert"):
+                continue
+            if k == "for":
+                run(st[2])
+            elif k == "block":
+                run(st[1])
+            elif k == "let":
+                fresh(st[1], arr_expr(st[2]))
+            elif k == "assign":
+                fresh(target(st[1]), arr_expr(st[2]))
+            elif k == "if":
+                c = arr_bool(st[1])
+                cname = f"c{len(binds)}"
+                binds.append((cname, c))
+                before = dict(ARR_ENV)
+                run(st[2])
+                th = dict(ARR_ENV)
+                ARR_ENV.clear(); ARR_ENV.update(before)
+                run(st[3])
+                el = dict(ARR_ENV)
+                ARR_ENV.clear(); ARR_ENV.update(before)
+                for v in sorted(set(th) | set(el)):
+                    x, y = th.get(v, before.get(v)), el.get(v, before.get(v))
+                    if x is None or y is None:
+                        raise ValueError("variable " + v + " assigned on one path only")
+                    if x != y:
+                        fresh(v, f"(if {cname} then {x} else {y})")
+            else:
+                raise ValueError("statement " + k)
+    ARR_ENV.clear()
+    run(stmts)
+    out = ARR_ENV.get("out")
+    ARR_ENV.clear()
+    if out is None:
+        raise ValueError("no value for out")
+    return "\n      " + "\n      ".join(f"let {n} := {t} in" for n, t in binds) + f"\n      {out}"
 
 
 def arr_stmts(stmts):
@@ -689,6 +760,8 @@ def gen_array(repo):
             if got.replace(" ", "") != shape.replace(" ", ""):
                 raise ValueError(f"case {labels[0]}: the loop no longer has the recorded shape: {got[:200]}")
             val = term
+        elif labels == ["OP_MOD"]:
+            val = arr_seq(stmts)
         else:
             val = arr_stmts(stmts)
         if val in (None, "ORACLE"):
@@ -702,9 +775,12 @@ def gen_array(repo):
         raise ValueError(f"only {len(seen)} value kernels found")
     return "\n".join([
         "(* GENERATED by translate/gen_kernels.py from libfive/src/eval/eval_array.cpp",
-        "   (ArrayEvaluator::operator(): the kernel each opcode runs, read over the reals; OP_MOD and OP_NTH_ROOT are",
-        "   accepted only in their recorded shape and stand for Rmod / Rnth_root) -- do not edit *)",
-        "From Coq Require Import Reals.", "From LF Require Import Base.Opcode Eval.DerivSem.", "Local Open Scope R_scope.", "",
+        "   (ArrayEvaluator::operator(): the kernel each opcode runs, read over the reals; the OP_MOD loop is transcribed",
+        "   statement by statement; OP_NTH_ROOT is accepted only in its recorded shape and stands for Rnth_root) -- do not edit *)",
+        "From Coq Require Import Reals Bool.", "From LF Require Import Base.Opcode Eval.DerivSem.", "Local Open Scope R_scope.", "",
+        "(* floor / ceil of libm, over the reals *)",
+        "Definition Rfloor (x : R) : R := IZR (Int_part x).",
+        "Definition Rceil (x : R) : R := - IZR (Int_part (- x)).", "",
         "Definition vkern_gen (op : opcode) (a b : R) : R :=", "  match op with"] + arms +
         ["  | _ => 0", "  end.", ""])
 
